@@ -883,24 +883,15 @@ shift(bitint383_t cand[static 3U], const unsigned int y, echs_shift_t sh)
 		bitint383_t res[3U] = {0U};
 		int c;
 
-		if (UNLIKELY(echs_shift_dvalue(sh))) {
-			/* merge all the off-year candidates from above */
-			for (size_t i = 0U; i < countof(res->pos); i++) {
-				cand[0U].pos[i] ^= cand[1U].pos[i];
-				cand[0U].neg[i] ^= cand[1U].neg[i];
-			}
-			for (size_t i = 0U; i < countof(res->pos); i++) {
-				cand[0U].pos[i] ^= cand[2U].pos[i];
-				cand[0U].neg[i] ^= cand[2U].neg[i];
-			}
-		}
-
-		/* go through candidates and shift */
-		for (bitint_iter_t ci = 0UL; (c = bi383_next(&ci, cand), ci);) {
+		/* go through candidates and shift, the ones the day shift
+		 * above has moved into the previous or next year stay there */
+		for (int iy = -1; iy <= 1; iy++)
+		for (bitint_iter_t ci = 0UL;
+		     (c = bi383_next(&ci, &cand[(iy != 0) << (iy > 0)]), ci);) {
 			const struct md_s md = unpack_cand(c);
 			int nu_d = md.d;
 			int nu_m = md.m;
-			unsigned int nu_y = y;
+			unsigned int nu_y = y + iy;
 			echs_wday_t w = ymd_get_wday(nu_y, nu_m, nu_d);
 			unsigned int u5, u7;
 			int nu_b = b;
